@@ -78,7 +78,7 @@ ITEMS = {
 
 class _Db:
     def __init__(self, build, rows, iso, nc):
-        self.dir = tempfile.mkdtemp(prefix="verif_battery_")
+        self.dir = bi.scratch_dir("verif_battery_")
         self.path = os.path.join(self.dir, "x.db")
         self.engine = sa.create_engine("sqlite:///" + self.path, **({"isolation_level": "AUTOCOMMIT"} if iso == "autocommit" else {}))
         self.iso = iso
